@@ -268,7 +268,11 @@ func streamCli() {
 				putcfg(i)
 				ops = append(ops, fmt.Sprintf("U (OpEditCfg %d %s)", i, ents[i].coq()))
 			case r < 80:
-				ents[i].vis++
+				if ents[i].vis < 5 {
+					ents[i].vis++
+				} else {
+					ents[i].subj++
+				}
 				putcfg(i)
 				ops = append(ops, fmt.Sprintf("U (OpEditCfg %d %s)", i, ents[i].coq()))
 			case r < 84:
